@@ -178,6 +178,7 @@ impl Monitor for C01 {
 
 pub fn profile() -> Profile {
     let mut p = Profile::general();
+    p.past_legacy_half = true;
     p.p_teleport = 1;
     p.kind_w[7] = 4;
     p.low_dosc_start = true;
